@@ -1,6 +1,7 @@
 """C10 -- random access: results do not depend on what was read before (necessary structural conditions only)."""
 import os, subprocess, time
 from ..core import *
+from ..inline import inlined_body
 from .. import census
 
 EXPLANATION = ("Three structural facts that are necessary for history independence (sufficiency is NOT claimed): (R10.1) every operation that reads "
@@ -281,9 +282,38 @@ def run(prog, rep, tier):
             o = origins(cs, [dop.place[0]])
             ok = any(cs.blocks[c].term.cmethod == 'new_decompressor_at' for c in o.calls)
         rep.ob('R10.2', ok, 'R10.2|%s|fresh-decompressor' % cs.nkey, 'the state stored by seek(Start) holds a decompressor created in the same call' if ok else 'seek(Start) reuses a decompressor from before the seek', cs.loc())
+    r10_4(prog, rep)
 
 
 def thorough_extra(rep, verif, repo):
     """R10.3 compile-fail witnesses (rustdoc compile_fail,E0xxx with compiling twins) -- thorough tier only"""
     from .. import witness
     return witness.run_witnesses(rep, verif, repo, 'R10.3', ('R10_3',))
+
+
+def r10_4(prog, rep, RULE='R10.4'):
+    """the helper that positions the inner layer at a block start does so on every successful return: every Ok result of
+    sync_inner_with_uncompressed_pos passes a seek(SeekFrom::Start(..)) of its `inner` parameter (no "it is already there" shortcut: where the inner
+    layer stands depends on what was read before)"""
+    body = one_body(prog, rep, RULE, 'mla', adt='layers::compress::CompressionLayerReader', name='sync_inner_with_uncompressed_pos')
+    if body is None:
+        return
+    body = inlined_body(prog, body)
+    rep.fn(body)
+    seeks = []
+    for b in body.calls():
+        t = b.term
+        if t.cmethod == 'seek' and t.ctrait == 'std::io::Seek' and t.args and t.args[0].place is not None:
+            o = origins(body, [t.args[0].place[0]], through_calls=False)
+            e = expr_of(body, t.args[1]) if len(t.args) > 1 else ('unknown',)
+            start = e[0] == 'agg' and e[3].j.get('variant') == 'Start'
+            if 2 in o.params and start:
+                seeks.append(b.idx)
+    oks = [(b.idx, i) for b in body.blocks if not b.cleanup for i, st in enumerate(b.stmts)
+           if st.kind == 'assign' and st.place == (0, ()) and st.rv.r == 'aggregate' and st.rv.j.get('variant') == 'Ok']
+    r = body.reachable(0, removed_blocks=seeks)
+    bad = [body.loc(bb, i) for bb, i in oks if bb in r]
+    ok = bool(seeks) and bool(oks) and not bad
+    rep.ob(RULE, ok, RULE + '|%s|always-seeks-absolutely' % body.nkey, 'every Ok result follows inner.seek(SeekFrom::Start(block start))' if ok else
+           'sync_inner_with_uncompressed_pos can return Ok without seeking the inner layer (%s): the position the next decompressor starts from then depends on what '
+           'was read before' % (', '.join(bad) or 'no absolute seek found'), body.loc())
